@@ -37,7 +37,7 @@ fn pairs(pa: Plan, ua: u8, pb: Plan, ub: u8, alt: bool, tier: Tier) -> Box<dyn C
         ha: SetHarness::new(ca),
         hb: SetHarness::new(cb),
         limits: lim(tier),
-        max_states: if tier == Tier::Quick { 600 } else { 3000 },
+        max_states: if tier == Tier::Quick { 1500 } else { 20000 },
         wall_cap: if tier == Tier::Quick { 40.0 } else { 1200.0 },
     })
 }
